@@ -45,7 +45,7 @@ def is_validator_call(c):
     if isinstance(c.func, ast.Name):
         return is_validator_name(c.func.id)
     if isinstance(c.func, ast.Attribute):
-        return c.func.attr.startswith("_validate_") or c.func.attr.startswith("validate_")
+        return c.func.attr.startswith(("_validate_", "validate_", "_input_check", "_check_input"))
     return False
 
 
@@ -134,6 +134,11 @@ class S1Client(BaseClient):
                                     w.add(("V", e.id))
                                 else:
                                     w.add(("T", e.id))
+                            elif isinstance(e, ast.Attribute) and isinstance(e.value, ast.Name) and e.value.id == "self":
+                                ok = val is not None and self.clean_value(val, w)
+                                self.hook("store", s, None if ok else f"stores a value derived from unvalidated {sorted(set(self.tainted(val, w)))}", attr=e.attr)
+                                if e.attr.startswith("_"):
+                                    w.add(("STORED",))
             out.add(frozenset(w))
         return frozenset(out)
 
